@@ -23,12 +23,12 @@ abbrev History := List Commit
 def parentsOf (h : History) (c : Nat) : List Nat := (h[c]?.map (·.parents)).getD []
 def treeOf (h : History) (c : Nat) : List Tree := (h[c]?.map (·.tree)).getD [.nil]
 
-/-- `isAnc h fuel a c`: `a` is an ancestor of `c` (or `c` itself); fuel = `c + 1` suffices -/
+/-- `isAnc h fuel a c`: `a` is an ancestor of `c` (or `c` itself); fuel = number of commits suffices -/
 def isAnc (h : History) : Nat → Nat → Nat → Bool
   | 0, a, c => a == c
   | f + 1, a, c => a == c || (parentsOf h c).any (fun p => isAnc h f a p)
 
-def isAncestor (h : History) (a c : Nat) : Bool := isAnc h (c + 1) a c
+def isAncestor (h : History) (a c : Nat) : Bool := isAnc h (h.length + 1) a c
 
 /-- greatest common ancestors of two sets of commits, descending -/
 def commonAncestors (h : History) (set1 set2 : List Nat) : List Nat :=
